@@ -41,6 +41,11 @@ def hdf5_writer(filename, data, components=None):
 
         if data.get_kind(cid) == 'categorical':
             values = data[cid]
+            if values.dtype.kind == 'O':
+                # Text held in an object array (e.g. columns that come from
+                # pandas) would be written as variable-length strings, which
+                # the HDF5 reader ignores, so convert to a regular string array
+                values = values.astype(str)
             if values.dtype.kind == 'U':
                 values = np.char.encode(values, encoding='ascii', errors='replace')
             else:
